@@ -127,14 +127,20 @@ def optOfX (j : Json) : Option XOpt :=
   | "defprofiles" => some (.defaultProfiles ((getStrList j "l").map String.toList))
   | _ => (optOf j).map .base
 
+/-- `ProjectOptions.LoadModel` after a fresh `NewProjectOptions`: the same pipeline, observed in the raw model -/
+def lmFields (lm : Bool) (r : LoadedX) : List (String × Json) :=
+  if lm then [("lm", Json.mkObj [("name", str r.base.name), ("probe", str r.base.probe),
+    ("res", Json.mkObj (r.resources.map fun e => (String.ofList e.1, str e.2)))])] else []
+
 /-- `Name.runXP`, with the stage of a failure -/
-def modelJsonX (w : World) (opts : List XOpt) (skip : Bool) : Json :=
+def modelJsonX (w : World) (opts : List XOpt) (skip : Bool) (lm : Bool := false) : Json :=
   match runXOpts w opts ({ configs := w.given }, none) with
   | .error e => Json.mkObj [("err", errStr e), ("at", "options")]
   | .ok st =>
     match loadX w st.1 skip with
     | .error e => Json.mkObj [("err", errStr e), ("at", "load")]
-    | .ok r => Json.mkObj [("ok", Json.mkObj (loadedXFields (decorate harnessExtras st.2 r)))]
+    | .ok r => Json.mkObj [("ok", Json.mkObj (loadedXFields (decorate harnessExtras st.2 r) ++
+        lmFields (lm && !st.1.configs.any (·.stdin)) (decorate harnessExtras st.2 r)))]
 
 open Spec in
 def decisionJson : Decision → Json
@@ -269,7 +275,7 @@ def c17load : Handler := fun args =>
   let xopts := (getArr args "opts").filterMap optOfX
   let opts := baseOpts xopts
   let skip := !interpFlag (interpCalls args)
-  Json.mkObj [("model", modelJsonX w xopts skip), ("spec", specJson args w opts skip)]
+  Json.mkObj [("model", modelJsonX w xopts skip (getBool args "lm")), ("spec", specJson args w opts skip)]
 
 /-- the loader-level entry: `loader.LoadWithContext` with `SetProjectName(name, imp)`, `SkipInterpolation`, an
     environment that may be nil -/
